@@ -5,7 +5,7 @@ From Coq Require Import List NArith ZArith Lia Bool Arith ZifyBool ZifyN ZifyNat
 From Coq Require Import Strings.Byte.
 Require Import BS.Bytes BS.Common BS.CommonFacts BS.Api BS.Layout BS.Format BS.FormatFacts BS.Spec BS.SpecStep BS.Sections.
 Require Import BS.FS BS.FSFacts BS.Meta BS.MetaFacts BS.Header BS.Reader BS.ReaderFacts BS.Index BS.Data BS.DataFacts BS.Seek BS.SeekFacts BS.Series.
-Require Import BS.SampleFacts BS.SeriesFacts BS.RangeFacts BS.RangeRead BS.ReadAllFacts BS.ExtractFacts BS.LastMetaFacts BS.HeaderFacts BS.OpenFacts BS.CacheFacts.
+Require Import BS.SampleFacts BS.SeriesFacts BS.RangeFacts BS.RangeRead BS.ReadAllFacts BS.ExtractFacts BS.LastMetaFacts BS.HeaderFacts BS.OpenFacts BS.CacheFacts BS.TornFacts BS.TornGenFacts.
 Import ListNotations.
 Close Scope N_scope. Open Scope nat_scope.
 Arguments N.add : simpl never. Arguments N.mul : simpl never. Arguments N.sub : simpl never.
@@ -128,14 +128,13 @@ End Aligned.
 (* ---- DownSampledData::open on an intact, aligned cache ---- *)
 Section OpenLevels.
 Variable p : nat.
-Hypothesis H4 : 4 <= p.
 
 Definition open_spec (name:fname) (B:N) : cspec := (N.to_nat B, (outer (config_header name B), outer [])).
 
 (* what must be on disk for a level *)
 Definition level_on_disk (fs:fsys) (name:fname) (l:list line) (B:N) : Prop :=
   let cl := cache_of p (N.to_nat B) l in
-  (1 <= B)%N /\ (exists k, length l = k * N.to_nat B) /\ wf_series p cl
+  (1 <= B)%N /\ (exists k, length l = k * N.to_nat B) /\ wf_series p cl /\ Forall (nm_sec p) (secs_of cl)
   /\ (len (config_header name B) <= 65535)%N /\ (len (encode p cl) < 2^64)%N
   /\ fs_get fs (cache_name name B ++ ext_data) = Some (outer (config_header name B) ++ encode p cl)
   /\ fs_get fs (cache_name name B ++ ext_index) = Some (outer [] ++ enc_index (sections p (encode p cl))).
@@ -147,15 +146,15 @@ Theorem ds_open_aligned fs name (B:N) src cb hdr ihdr l :
   exists ds, ds_open_or_create name B p src cb fs = (fs, Ok ds)
     /\ cache_ok p fs l ds (open_spec name B) /\ cache_files ds = cache_names name B.
 Proof.
-  intros W RD (HB & (k & Hk) & Wc & Hh & H64 & GD & GI).
+  intros W RD (HB & (k & Hk) & Wc & NMc & Hh & H64 & GD & GI).
   set (Bn := N.to_nat B) in *. assert (Hb : Bn > 0) by (unfold Bn; lia).
   set (cl := cache_of p Bn l) in *. set (cname := cache_name name B) in *.
   destruct (fwh_open_ok fs (cname ++ ext_data) (config_header name B) (encode p cl) Hh GD) as [FO _].
   assert (TC : cl = [] \/ tail_clean p (encode p cl)).
   { assert (CASE : cl = [] \/ cl <> []) by (destruct cl; [left; reflexivity|right; discriminate]).
-    destruct CASE as [E0|NE]; [left; exact E0|right; apply tail_clean_p4; [exact H4|exact Wc|exact NE]]. }
+    destruct CASE as [E0|NE]; [left; exact E0|right; apply tail_clean_nm; [exact Wc|exact NE|exact NMc]]. }
   assert (LM : last_meta_timestamp p (encode p cl) = Ok (full_after p None cl)).
-  { apply last_meta_ok; [exact Wc|]. apply Forall_forall. intros sct _. apply nm_p4. exact H4. }
+  { apply last_meta_ok; [exact Wc|exact NMc]. }
   destruct (data_open_ok p fs cname (config_header name B) cb cl Wc Hh H64 GD GI TC LM) as (d & DO & RDc & N1 & N2).
   pose proof (add_missing_aligned p Bn Hb fs src d cb hdr ihdr l k W Hk RD (rd_last _ _ _ _ _ _ _ _ RDc)) as AM.
   unfold Bn in AM. rewrite N2Nat.id in AM.
@@ -185,7 +184,7 @@ Theorem open_caches_aligned fs name src cb hdr ihdr l :
   forall Bs, Forall (level_on_disk fs name l) Bs ->
   exists down, open_caches name p src cb Bs fs = (fs, Ok down)
     /\ Forall2 (cache_ok p fs l) down (map (open_spec name) Bs)
-    /\ flat_map cache_files down = flat_map (cache_names name) Bs.
+    /\ map cache_files down = map (cache_names name) Bs.
 Proof.
   intros W RD. induction Bs as [|B t IH]; intros F.
   - exists []. split; [reflexivity|]. split; [constructor|reflexivity].
@@ -193,13 +192,14 @@ Proof.
     destruct (ds_open_aligned fs name B src cb hdr ihdr l W RD FB) as (ds & E & CO & NF).
     destruct (IH Ft) as (down & Et & F2 & FM).
     exists (ds :: down). cbn [open_caches]. erewrite mbind_ok by exact E. erewrite mbind_ok by exact Et.
-    split; [reflexivity|]. split; [cbn [map]; constructor; assumption|]. cbn [flat_map]. rewrite NF, FM. reflexivity.
+    split; [reflexivity|]. split; [cbn [map]; constructor; assumption|]. cbn [map]. rewrite NF, FM. reflexivity.
 Qed.
 
 (* ByteSeries::open_existing_with_resampler with cache levels, everything intact and aligned *)
 Theorem series_open_caches fs name uhdr popt cb l (Bs:list N) :
   let header := params_to_text BSgen.Consts.version (N.of_nat p) ++ uhdr in
-  wf_series p l -> (len header <= 65535)%N -> (len (encode p l) < 2^64)%N -> (N.of_nat p < 2^64)%N ->
+  wf_series p l -> Forall (nm_sec p) (secs_of l) ->
+  (len header <= 65535)%N -> (len (encode p l) < 2^64)%N -> (N.of_nat p < 2^64)%N ->
   fs_get fs (name ++ ext_data) = Some (outer header ++ encode p l) ->
   fs_get fs (name ++ ext_index) = Some (outer [] ++ enc_index (sections p (encode p l))) ->
   (popt = None \/ popt = Some (N.of_nat p)) ->
@@ -207,14 +207,16 @@ Theorem series_open_caches fs name uhdr popt cb l (Bs:list N) :
   NoDup ([name ++ ext_data; name ++ ext_index] ++ flat_map (cache_names name) Bs) ->
   exists s, series_open name popt Bs cb fs = (fs, Ok (s, uhdr))
     /\ RepS fs s p (outer header) (outer []) l (map (open_spec name) Bs) /\ s_cb s = cb
-    /\ all_files s = [name ++ ext_data; name ++ ext_index] ++ flat_map (cache_names name) Bs.
+    /\ all_files s = [name ++ ext_data; name ++ ext_index] ++ flat_map (cache_names name) Bs
+    /\ of_name (d_file (s_data s)) = name ++ ext_data /\ of_name (ix_file (d_index (s_data s))) = name ++ ext_index
+    /\ map cache_files (s_down s) = map (cache_names name) Bs.
 Proof.
-  intros header W Hh H64 Hp GD GI Hopt FL ND.
+  intros header W NMl Hh H64 Hp GD GI Hopt FL ND.
   destruct (fwh_open_ok fs (name ++ ext_data) header (encode p l) Hh GD) as [FO _].
   assert (TC : l = [] \/ tail_clean p (encode p l)).
-  { destruct l as [|x t] eqn:El; [left; reflexivity|right]. rewrite <- El in *. apply tail_clean_p4; [exact H4|exact W|rewrite El; discriminate]. }
+  { destruct l as [|x t] eqn:El; [left; reflexivity|right]. rewrite <- El in *. apply tail_clean_nm; [exact W|rewrite El; discriminate|exact NMl]. }
   assert (LM : last_meta_timestamp p (encode p l) = Ok (full_after p None l)).
-  { apply last_meta_ok; [exact W|]. apply Forall_forall. intros sct _. apply nm_p4. exact H4. }
+  { apply last_meta_ok; [exact W|exact NMl]. }
   destruct (data_open_ok p fs name header cb l W Hh H64 GD GI TC LM) as (d & DO & RD & N1 & N2).
   destruct (open_caches_aligned fs name d cb _ _ l W RD Bs FL) as (down & OC & F2 & FM).
   unfold series_open. erewrite mbind_ok by exact FO. cbv iota beta.
@@ -222,38 +224,69 @@ Proof.
   rewrite Nat2N.id. erewrite mbind_ok by (apply mcatch_ok; exact DO).
   unfold lift at 1. erewrite mbind_ok by (rewrite (data_range_ok p fs d _ _ l W RD); reflexivity).
   erewrite mbind_ok by (apply mcatch_ok; exact OC).
-  eexists. split; [reflexivity|]. split; [|split; [reflexivity|]].
+  assert (FM' : flat_map cache_files down = flat_map (cache_names name) Bs) by (rewrite !flat_map_concat_map, FM; reflexivity).
+  eexists. split; [reflexivity|]. split; [|split; [reflexivity|split; [|split; [exact N1|split; [exact N2|exact FM]]]]].
   - constructor; cbn [s_data s_down s_range]; [exact RD|exact W|reflexivity|exact F2|].
-    unfold all_files. cbn [s_data s_down]. rewrite N1, N2, FM. exact ND.
-  - unfold all_files. cbn [s_data s_down]. rewrite N1, N2, FM. reflexivity.
+    unfold all_files. cbn [s_data s_down]. rewrite N1, N2, FM'. exact ND.
+  - unfold all_files. cbn [s_data s_down]. rewrite N1, N2, FM'. reflexivity.
 Qed.
 End OpenLevels.
 
 (* ---- C09: close and reopen with the same cache levels, aligned ---- *)
 Section ReopenCaches.
 Variable p : nat.
-Hypothesis H4 : 4 <= p.
 
 Lemma levels_on_disk fs name l : forall (down:list dsample) (Bs:list N),
   Forall2 (cache_ok p fs l) down (map (open_spec name) Bs) ->
   map cache_files down = map (cache_names name) Bs ->
-  Forall (fun B => (1 <= B)%N /\ (exists k, length l = k * N.to_nat B)
+  Forall (fun B => (1 <= B)%N /\ (exists k, length l = k * N.to_nat B) /\ Forall (nm_sec p) (secs_of (cache_of p (N.to_nat B) l))
                    /\ (len (config_header name B) <= 65535)%N /\ (len (encode p (cache_of p (N.to_nat B) l)) < 2^64)%N) Bs ->
   Forall (level_on_disk p fs name l) Bs.
 Proof.
   induction down as [|ds t IH]; intros Bs F2 NM FA; destruct Bs as [|B Bt]; try (inversion F2; fail); [constructor|].
   cbn [map] in F2, NM. inversion F2 as [|? ? ? ? OK F2t]; subst. unfold cache_files at 1, cache_names at 1 in NM. injection NM as E1 E2 NT.
-  inversion FA as [|? ? (HB & HK & Hh & H64) FAt]; subst.
+  inversion FA as [|? ? (HB & HK & NMc & Hh & H64) FAt]; subst.
   constructor; [|apply (IH Bt F2t NT FAt)].
   destruct OK as [Hb CO]. cbn [open_spec fst snd] in *.
   pose proof (CacheOf_files p (N.to_nat B) Hb fs ds _ _ l CO) as [[G1 _] [G2 _]].
   rewrite E1 in G1. rewrite E2 in G2.
   destruct (cache_as_series p fs ds (open_spec name B) l CbNone (conj Hb CO)) as (ch & cih & RH).
   unfold level_on_disk. cbn [open_spec fst] in RH.
-  split; [exact HB|split; [exact HK|split; [exact (rh_wf _ _ _ _ _ _ RH)|split; [exact Hh|split; [exact H64|split; [exact G1|exact G2]]]]]].
+  split; [exact HB|split; [exact HK|split; [exact (rh_wf _ _ _ _ _ _ RH)|split; [exact NMc|split; [exact Hh|split; [exact H64|split; [exact G1|exact G2]]]]]]].
 Qed.
 
-Theorem reopen_caches_aligned fs s uhdr name popt hdropt cb l (Bs:list N) :
+Theorem reopen_caches_aligned_nm fs s uhdr name popt hdropt cb l (Bs:list N) :
+  let header := params_to_text BSgen.Consts.version (N.of_nat p) ++ uhdr in
+  RepS fs s p (outer header) (outer []) l (map (open_spec name) Bs) ->
+  of_name (d_file (s_data s)) = name ++ ext_data -> of_name (ix_file (d_index (s_data s))) = name ++ ext_index ->
+  map cache_files (s_down s) = map (cache_names name) Bs ->
+  Forall (nm_sec p) (secs_of l) ->
+  (len header <= 65535)%N -> (len (encode p l) < 2^64)%N -> (N.of_nat p < 2^64)%N ->
+  (popt = None \/ popt = Some (N.of_nat p)) ->
+  match hdropt with HdrIs e => e = uhdr | HdrAny => True end ->
+  Forall (fun B => (1 <= B)%N /\ (exists k, length l = k * N.to_nat B) /\ Forall (nm_sec p) (secs_of (cache_of p (N.to_nat B) l))
+                   /\ (len (config_header name B) <= 65535)%N /\ (len (encode p (cache_of p (N.to_nat B) l)) < 2^64)%N) Bs ->
+  exists s', builder_open name popt hdropt Bs cb fs = (fs, Ok (s', uhdr))
+    /\ RepS fs s' p (outer header) (outer []) l (map (open_spec name) Bs) /\ s_cb s' = cb
+    /\ of_name (d_file (s_data s')) = name ++ ext_data /\ of_name (ix_file (d_index (s_data s'))) = name ++ ext_index
+    /\ map cache_files (s_down s') = map (cache_names name) Bs.
+Proof.
+  intros header R N1 N2 NM NMl Hh H64 Hp Hopt HO FA.
+  pose proof (rs_data _ _ _ _ _ _ _ R) as RD. pose proof (rs_wf _ _ _ _ _ _ _ R) as W.
+  pose proof (rd_file _ _ _ _ _ _ _ _ RD) as [GD _]. pose proof (rd_ix _ _ _ _ _ _ _ _ RD) as [GI _].
+  rewrite N1 in GD. rewrite N2 in GI.
+  pose proof (levels_on_disk fs name l _ Bs (rs_caches _ _ _ _ _ _ _ R) NM FA) as LD.
+  assert (ND : NoDup ([name ++ ext_data; name ++ ext_index] ++ flat_map (cache_names name) Bs)).
+  { pose proof (rs_names _ _ _ _ _ _ _ R) as ND0. unfold all_files in ND0. rewrite N1, N2 in ND0.
+    rewrite !flat_map_concat_map in *. rewrite NM in ND0. exact ND0. }
+  destruct (series_open_caches p fs name uhdr popt cb l Bs W NMl Hh H64 Hp GD GI Hopt LD ND) as (s' & SO & R' & CB & _ & M1 & M2 & M3).
+  exists s'. split; [|repeat (split; [assumption|]); assumption].
+  unfold builder_open. erewrite mbind_ok by exact SO. cbv iota beta.
+  destruct hdropt as [|e]; [reflexivity|]. subst e. rewrite bytes_eqb_refl. reflexivity.
+Qed.
+
+(* payload sizes >= 4: no condition on the timestamps *)
+Theorem reopen_caches_aligned (H4 : 4 <= p) fs s uhdr name popt hdropt cb l (Bs:list N) :
   let header := params_to_text BSgen.Consts.version (N.of_nat p) ++ uhdr in
   RepS fs s p (outer header) (outer []) l (map (open_spec name) Bs) ->
   of_name (d_file (s_data s)) = name ++ ext_data -> of_name (ix_file (d_index (s_data s))) = name ++ ext_index ->
@@ -267,16 +300,14 @@ Theorem reopen_caches_aligned fs s uhdr name popt hdropt cb l (Bs:list N) :
     /\ RepS fs s' p (outer header) (outer []) l (map (open_spec name) Bs) /\ s_cb s' = cb.
 Proof.
   intros header R N1 N2 NM Hh H64 Hp Hopt HO FA.
-  pose proof (rs_data _ _ _ _ _ _ _ R) as RD. pose proof (rs_wf _ _ _ _ _ _ _ R) as W.
-  pose proof (rd_file _ _ _ _ _ _ _ _ RD) as [GD _]. pose proof (rd_ix _ _ _ _ _ _ _ _ RD) as [GI _].
-  rewrite N1 in GD. rewrite N2 in GI.
-  pose proof (levels_on_disk fs name l _ Bs (rs_caches _ _ _ _ _ _ _ R) NM FA) as LD.
-  assert (ND : NoDup ([name ++ ext_data; name ++ ext_index] ++ flat_map (cache_names name) Bs)).
-  { pose proof (rs_names _ _ _ _ _ _ _ R) as ND0. unfold all_files in ND0. rewrite N1, N2 in ND0.
-    rewrite !flat_map_concat_map in *. rewrite NM in ND0. exact ND0. }
-  destruct (series_open_caches p H4 fs name uhdr popt cb l Bs W Hh H64 Hp GD GI Hopt LD ND) as (s' & SO & R' & CB & _).
-  exists s'. split; [|split; assumption].
-  unfold builder_open. erewrite mbind_ok by exact SO. cbv iota beta.
-  destruct hdropt as [|e]; [reflexivity|]. subst e. rewrite bytes_eqb_refl. reflexivity.
+  assert (G : exists s', builder_open name popt hdropt Bs cb fs = (fs, Ok (s', uhdr))
+    /\ RepS fs s' p (outer header) (outer []) l (map (open_spec name) Bs) /\ s_cb s' = cb
+    /\ of_name (d_file (s_data s')) = name ++ ext_data /\ of_name (ix_file (d_index (s_data s'))) = name ++ ext_index
+    /\ map cache_files (s_down s') = map (cache_names name) Bs);
+    [|destruct G as (s' & E & R' & CB & _); exists s'; split; [exact E|split; assumption]].
+  apply (reopen_caches_aligned_nm fs s uhdr name popt hdropt cb l Bs R N1 N2 NM); try assumption.
+  - apply Forall_forall. intros sct _. apply nm_p4. exact H4.
+  - eapply Forall_impl; [|exact FA]. intros B (HB & HK & Hh' & H64'). split; [exact HB|]. split; [exact HK|].
+    split; [apply Forall_forall; intros sct _; apply nm_p4; exact H4|]. split; assumption.
 Qed.
 End ReopenCaches.
